@@ -605,4 +605,96 @@ SEEDS = [
         let n = self.node(index);
         let target = if n.left != EMPTY_REF && n.right == EMPTY_REF { n.left } else { index };
         self.delete_index(target);""", note='deleting by handle removes the left child in one shape'),
+
+    dict(id='SF1-seg-next-advance-after-remove', props=['C03', 'C16'], file='src/seg/tree.rs',
+         old="""                if item.val.expiration() < self.time {
+                    chunk.buffer.swap_remove(i);
+                    continue
+                }
+                i += 1;""",
+         new="""                if item.val.expiration() < self.time {
+                    chunk.buffer.swap_remove(i);
+                    i += 1;
+                    continue
+                }
+                i += 1;""", note='cursor advanced after swap_remove: the swapped-in element is skipped'),
+    dict(id='SF2-seg-dedupe-self-mask', props=['C03'], file='src/seg/tree.rs',
+         old="let mask_int = item.mask & self.mask;", new="let mask_int = item.mask;", note='de-duplication ignores the query mask: values stored above the visited places are lost'),
+    dict(id='SF3-seg-insert-intersect-mask', props=['C03'], file='src/seg/tree.rs',
+         old="let mask = self.layout.insert_mask(range.min.into(), range.max.into());", new="let mask = self.layout.intersect_mask(range.min.into(), range.max.into());",
+         note='insert stores at the visit places (ancestors) instead of the tiling places'),
+    dict(id='SF4-seg-position-not-advanced', props=['C03'], file='src/seg/tree.rs',
+         old="""                if first_index == self.i0 {
+                    self.i1 = i;""",
+         new="""                if first_index == self.i0 {
+                    self.i1 = i - 1;""", note='resumed iterator reports the same copy again'),
+    dict(id='SF5-seg-swapped-range-args', props=['C03'], file='src/seg/tree.rs',
+         old="let mask = self.layout.intersect_mask(range.min.into(), range.max.into());", new="let mask = self.layout.intersect_mask(range.max.into(), range.min.into());",
+         note='query range passed as (max, min)'),
+    dict(id='U1-keylist-err-unguarded', props=['C10', 'C13'], file='src/key/list.rs',
+         old="""            Err(index) => {
+                if index > 0 {
+                    unsafe { self.buffer.get_unchecked(index - 1) }.val
+                } else {
+                    default
+                }
+            }
+        }
+    }
+
+    #[inline]
+    fn first_less_or_equal_by""",
+         new="""            Err(index) => {
+                if index < self.buffer.len() {
+                    unsafe { self.buffer.get_unchecked(index) }.val
+                } else {
+                    default
+                }
+            }
+        }
+    }
+
+    #[inline]
+    fn first_less_or_equal_by""", note='Err(i) read at i: wrong element and, combined with later edits, out of bounds'),
+    dict(id='U2-seg-entity-stale-len', props=['C10'], file='src/seg/tree.rs',
+         old="""            let mut i = self.i1;
+            while i < chunk.buffer.len() {""",
+         new="""            let mut i = self.i1;
+            let n = chunk.buffer.len();
+            while i < n {""", note='length read once before the scan: after a swap_remove the scan reads past the end'),
+    dict(id='E3-setlist-before-unguarded', props=['C10', 'C13'], file='src/set/list.rs',
+         old="""        if index > 0 {
+            index - 1
+        } else {
+            EMPTY_REF
+        }""",
+         new="""        index - 1""", note='0 - 1 overflows in debug builds (D7 second half)'),
+
+    dict(id='K1-all-rotate-right-grandchild-parent', props=['C02'], file='src/map/tree.rs',
+         old="""        if lt_right != EMPTY_REF {
+            self.node_mut(lt_right).parent = index;
+        }
+""", new="", note='rotate_right forgets to re-parent the inner grandchild (map copy)'),
+    dict(id='K2-key-insert-new-black', props=['C02'], file='src/key/tree.rs',
+         old="""        new_node.right = EMPTY_REF;
+        new_node.color = Color::Red;
+        new_node.entity = entity;
+
+        new_index""",
+         new="""        new_node.right = EMPTY_REF;
+        new_node.color = Color::Black;
+        new_node.entity = entity;
+
+        new_index""", note='new non-root nodes are black'),
+    dict(id='K3-set-nil-not-unlinked-on-red-parent', props=['C02', 'C11'], file='src/set/tree.rs',
+         old="""                self.fix_red_black_properties_after_delete(NIL_INDEX);
+                self.fix_parents_nil_child();""",
+         new="""                self.fix_red_black_properties_after_delete(NIL_INDEX);
+                if self.node(nd_parent).color == Color::Black {
+                    self.fix_parents_nil_child();
+                }""", note='sentinel stays linked when the parent ends up red'),
+    dict(id='K4-map-replace-child-no-parent', props=['C02'], file='src/map/tree.rs',
+         old="""    fn replace_parents_child(&mut self, parent: u32, old_child: u32, new_child: u32) {
+        self.node_mut(new_child).parent = parent;""",
+         new="""    fn replace_parents_child(&mut self, parent: u32, old_child: u32, new_child: u32) {""", note='replacement child keeps its old parent link'),
 ]
